@@ -682,6 +682,8 @@ func runC18(c *vh.Case, spec c18Spec) *c18World {
 				rt.subEvents[uri] = append(rt.subEvents[uri], c18SubEv{e2.Seq, e2.T, "unsub-returned"})
 			case !modern:
 				rt.subEvents[uri] = append(rt.subEvents[uri], c18SubEv{e2.Seq, e2.T, "sub-effective"})
+			default:
+				rt.subEvents[uri] = append(rt.subEvents[uri], c18SubEv{e2.Seq, e2.T, "sub-returned"})
 			}
 			w.mu.Unlock()
 		case "list":
@@ -866,6 +868,56 @@ func decideC18(c *vh.Case, spec c18Spec, w *c18World) {
 				if !ok {
 					c.Violate("change-notification-lost/"+nk, "session %d (%s, %s) is entitled to %s since %s; the %s change #%d at %s was followed by no notification to it (notifications at %v)", si, sp.Version, sp.Kind, m, ms(entitledFrom), ch.listKind, ch.idx, ms(ch.t), c18Times(arr))
 					return
+				}
+			}
+		}
+	}
+
+	// ---- a Subscribe that returned without error on a session that was definitely not subscribed must
+	// be acknowledged by the server (2026-07-28: the subscription only exists once the listen is accepted)
+	for si, rt := range w.sess {
+		if !modernSess(si) || rt.closeT >= 0 {
+			continue
+		}
+		for uri, evs := range rt.subEvents {
+			state := "none" // none | sub | unknown
+			for i, ev := range evs {
+				switch ev.what {
+				case "sub-effective":
+					state = "sub"
+				case "unsub-called", "error":
+					state = "unknown"
+				case "unsub-returned":
+					// definitely gone only if nothing else for this URI happened at the same instant
+					state = "none"
+					for j, o := range evs {
+						if j != i && o.t == ev.t && o.what != "unsub-called" {
+							state = "unknown"
+						}
+					}
+				case "sub-returned":
+					if state != "none" {
+						break
+					}
+					acked := false
+					for _, o := range evs[i+1:] {
+						if o.what == "sub-effective" {
+							acked = true
+						}
+						if o.what == "unsub-called" || o.what == "error" {
+							acked = true // superseded
+						}
+					}
+					// the acknowledgement may also have overtaken the return of Subscribe
+					for _, o := range evs[:i] {
+						if o.what == "sub-effective" && o.t == ev.t {
+							acked = true
+						}
+					}
+					if !acked && ev.t+100_000 < endT {
+						c.Violate("subscription-never-established", "session %d: Subscribe(%s) returned nil at %s on a session that was not subscribed to it, but the server never acknowledged the subscription (events %v)", si, uri, ms(ev.t), evs)
+						return
+					}
 				}
 			}
 		}
